@@ -172,7 +172,9 @@ func vxGenFile(i int) vxFile {
 	f := vxFile{name: "p" + strconv.Itoa(i) + ".json", kind: vx.Choose(p+"kind", nFileKinds)}
 	switch f.kind {
 	case fkGood:
-		switch vx.Choose(p+"good", 3) {
+		switch vx.Choose(p+"good", 4) {
+		case 3: // not idempotent: applying it twice differs from applying it once
+			f.content = []byte(`[{"op":"add","path":"/l/-","value":` + string([]byte{vxDigit(p + "d")}) + `}]`)
 		case 0:
 			f.content = []byte(`[{"op":"add","path":"/n` + strconv.Itoa(i) + `","value":` + string([]byte{vxDigit(p + "d")}) + `}]`)
 		case 1:
@@ -249,7 +251,7 @@ func H_C20_Main() {
 		}
 		vxScn.files = append(vxScn.files, vxGenFile(i))
 	}
-	vxScn.stdin = []byte(`{"a":"` + string([]byte{vxPlain("doc.c0"), vxPlain("doc.c1")}) + `","s":"x"}`)
+	vxScn.stdin = []byte(`{"a":"` + string([]byte{vxPlain("doc.c0"), vxPlain("doc.c1")}) + `","s":"x","l":[]}`)
 	for i, f := range vxScn.files {
 		vx.Note("file"+strconv.Itoa(i)+"("+strconv.Itoa(f.kind)+")", f.content)
 	}
